@@ -35,6 +35,10 @@ pub struct Case {
     /// size exponent, the client's preference for a large reply
     #[serde(default)]
     pub upload_block2: Option<u8>,
+    /// code of the application's reply when it is not the usual 2.05 / 2.04
+    /// (error replies are fragmented and budgeted like any other)
+    #[serde(default)]
+    pub reply_code: Option<u8>,
 }
 
 impl Case {
@@ -53,7 +57,7 @@ impl Case {
     }
     fn reply(&self) -> AppSpec {
         AppSpec {
-            code: if self.upload { 0x44 } else { 0x45 },
+            code: self.reply_code.unwrap_or(if self.upload { 0x44 } else { 0x45 }),
             options: self.resp_options.clone(),
             body: body(if self.upload { self.reply_len } else { self.body_len }, 7),
         }
@@ -498,6 +502,7 @@ fn case() -> BoxedStrategy<Case> {
                 high_blocks: false,
                 reduce: if r & 0x4000 != 0 { 1 + (r >> 12 & 3) as u8 } else { 0 },
                 upload_block2: if upload && r & 0x3000 == 0x3000 { Some((r >> 5) as u8 % 7) } else { None },
+                reply_code: if r % 5 == 0 { Some([0x84u8, 0xA0, 0x41, 0x9F][(r as usize >> 3) % 4]) } else { None },
             };
             let lo = c.min_budget();
             let hi = 1280usize;
@@ -548,6 +553,7 @@ pub fn run(ctx: &Ctx, rep: &mut Report) {
                 high_blocks: false,
                 reduce: 0,
                 upload_block2: None,
+                reply_code: None,
             };
             let overhead = if upload { base.request_overhead() } else { base.reply().overhead(4) };
             let lo = base.min_budget();
@@ -604,6 +610,7 @@ pub fn run(ctx: &Ctx, rep: &mut Report) {
                         high_blocks: false,
                 reduce: 0,
                 upload_block2: None,
+                reply_code: None,
                     };
                     let overhead = if upload { base.request_overhead() } else { base.reply().overhead(token_len as usize) };
                     let lo = base.min_budget();
@@ -649,6 +656,7 @@ pub fn run(ctx: &Ctx, rep: &mut Report) {
                 high_blocks: true,
                 reduce: 0,
                 upload_block2: None,
+                reply_code: None,
             };
             let overhead = base.reply().overhead(token_len as usize);
             let lo = base.min_budget();
